@@ -25,6 +25,8 @@
 //	O3 literals    @("s") with quotes doubled migrates to a template that evaluates to s (alone and inside &)
 //	O5 grouping    for every node of a clean tree, each operand migrated on its own is a subtree (up to
 //	               parentheses) of the migrated node — needs no knowledge of what the functions mean
+//	O6 rescan      scanning the migrated template with the new scanner gives the legacy body text and, between it,
+//	               exactly the expressions the tokens migrate to on their own (nothing glued, nothing cut)
 //	O4 body        MigrateTemplate(t) is the concatenation over the scanner tokens of t of: the body token
 //	               itself / the migration of the identifier or expression alone
 package main
@@ -238,6 +240,9 @@ var refNames = []string{
 	"channel", "channel.name", "channel.tel_e164",
 	"date", "date.now", "date.today", "date.tomorrow", "date.yesterday",
 	"extra", "extra.address.state", "extra.results.1", "extra.a.1b.c",
+	// digit-leading path segments (fixLookups rewrites them as ["..."] lookups), with underscores and letters
+	"flow.1_month.value", "flow.1_month", "contact.2nd_phone", "extra.rows.0.3_day_total", "child.1_a.category",
+	"parent.9x_y", "flow.2_b_3.text", "extra.0", "extra.1st.2nd.3rd_x", "step.attachments.1", "flow.12.time", "contact.3_4",
 	"foo", "foo.bar", "Contact.Name", "CONTACT.AGE", "Flow.Color", "results.x", "fields.age",
 }
 
@@ -655,6 +660,87 @@ func oracleGrouping(res *hx.Result, tc tcase, t *lt) {
 	visit(t)
 }
 
+// O6: re-scanning the migrated template (scanner of the new syntax) gives back the body text of the legacy template
+// and, between it, exactly the expressions the identifiers / expressions migrate to on their own: nothing of the
+// body is swallowed by an expression and no expression is cut short.
+type rtok struct {
+	Body bool
+	S    string
+}
+
+func mergeBodies(ts []rtok) []rtok {
+	var out []rtok
+	for _, t := range ts {
+		if t.Body && t.S == "" {
+			continue
+		}
+		if n := len(out); n > 0 && t.Body && out[n-1].Body {
+			out[n-1].S += t.S
+		} else {
+			out = append(out, t)
+		}
+	}
+	return out
+}
+
+func rescan(tpl string) []rtok {
+	var out []rtok
+	for _, s := range scanReal(tpl, flows.RunContextTopLevels) {
+		out = append(out, rtok{s.T == 0, s.S})
+	}
+	return mergeBodies(out)
+}
+
+var newOnlyTops = []string{"fields", "globals", "input", "legacy_extra", "node", "results", "resume", "run", "ticket", "trigger", "urns", "webhook"}
+
+func oracleRescan(res *hx.Result, tc tcase, out string) {
+	res.OracleChecks++
+	var want []rtok
+	glued, live := false, false
+	segs := scanReal(tc.Template, expressions.ContextTopLevels)
+	for i, s := range segs {
+		switch s.T {
+		case 0:
+			want = append(want, rtok{true, s.S})
+			low := strings.ToLower(s.S)
+			for _, t := range newOnlyTops {
+				if strings.Contains(low, "@"+t) {
+					live = true
+				}
+			}
+		default:
+			alone := "@" + s.S
+			if s.T == 2 {
+				alone = "@(" + s.S + ")"
+			}
+			o, hasErr, _ := migrateReal(alone, tc.Options)
+			if hasErr {
+				return // a legacy syntax error: the token is copied, nothing to compare
+			}
+			want = append(want, rescan(o)...)
+			if !strings.HasPrefix(o, "@(") && i+1 < len(segs) && segs[i+1].T == 0 {
+				glued = true
+			}
+		}
+	}
+	want = mergeBodies(want)
+	got := rescan(out)
+	same := len(want) == len(got)
+	for i := 0; same && i < len(want); i++ {
+		same = want[i] == got[i]
+	}
+	if !same {
+		cls := "rescan:other"
+		switch {
+		case live:
+			cls = "body:new-toplevel-identifier-becomes-live"
+		case glued:
+			cls = "rescan:identifier-glued-to-following-text"
+		}
+		res.Fail(cls, tc, fmt.Sprintf("migrated %q re-scans to %v, expected %v", out, got, want))
+	}
+}
+
 // O4: text outside expressions is unchanged, and the migration is compositional over the scanner tokens
 func oracleBody(res *hx.Result, tc tcase, out string) {
 	res.OracleChecks++
@@ -787,6 +873,9 @@ func main() {
 		}
 		emitCase(sh, tc, out, hasErr, clean)
 		oracleBody(res, tc, out)
+		if !hasErr {
+			oracleRescan(res, tc, out)
+		}
 		if clean && !hasErr {
 			oracleParses(res, tc, trees, out)
 			if tc.Options == (options{}) {
@@ -879,6 +968,17 @@ func main() {
 		}
 	}
 
+	// an expression that migrates to a bare identifier must not swallow the text that follows it
+	for _, c := range [][2]string{{"@(contact.n1)5", "35"}, {"@(contact.s1)s", "foxs"}, {"x @(contact.s1).n1 y", "x fox.n1 y"}, {"@(contact.s1)_a", "fox_a"},
+		{"@(contact.s1)é", "foxé"}, {"@(contact.s1)(z)", "fox(z)"}, {"@(contact.s1). ", "fox. "}, {"@(contact.1_x)2", "72"}} {
+		res.OracleChecks++
+		out, hasErr, _ := migrateReal(c[0], options{})
+		got, evErr := evalMigrated(out, []varDecl{{Name: "contact.n1", V: rvInt(3)}, {Name: "contact.s1", V: rvText("fox")}, {Name: "contact.1_x", V: rvInt(7)}})
+		if hasErr || evErr || got != c[1] {
+			res.Fail("rescan:identifier-glued-to-following-text", map[string]any{"template": c[0]}, fmt.Sprintf("legacy %q denotes %q; migrated %q evaluates to %q (evaluation error %v)", c[0], c[1], out, got, evErr))
+		}
+	}
+
 	// text outside expressions keeps its meaning: an @name that the legacy system left alone (not a legacy top level)
 	// must not become an expression of the new system
 	for _, c := range [][2]string{{"mail @fields.n1 now", "mail @fields.n1 now"}, {"a @@fields.n1 b", "a @fields.n1 b"}, {"x@nyaruka.com @foo", "x@nyaruka.com @foo"}} {
@@ -919,6 +1019,11 @@ func main() {
 					}
 					sb.WriteString("@(" + t.text(sp) + ")")
 				}
+				if rg.Chance(1, 6) {
+					// an expression that migrates to a bare identifier, directly followed by text that could extend it
+					sb.WriteString("@(" + hx.Pick(rg, []string{"contact.name", "contact.age", "flow.color", "contact", "step.value", "child.age", "flow.1_month"}) + ")" +
+						hx.Pick(rg, []string{"s", "1", "_x", ".x", ". ", "(z)", "é", "th", ".1", "..", "@x", "@@"}))
+				}
 				if rg.Chance(1, 2) {
 					sb.WriteString(randText(rg, bodyAlphabet, 5, false))
 				}
@@ -948,6 +1053,23 @@ func main() {
 			vars := genVars(rt)
 			typ := hx.Pick(rt, []string{"num", "num", "text", "bool"})
 			t := genTyped(rt, typ, rt.Range(1, 4), vars)
+			if rt.Chance(1, 4) {
+				// context references with digit-leading path segments: contact.1_n -> fields["1_n"]
+				ren := map[string]string{"contact.n1": "contact.1_n", "contact.n2": "contact.2nd_n", "contact.s1": "contact.3_day_s", "contact.s2": "contact.4x"}
+				for i := range vars {
+					if to, ok := ren[vars[i].Name]; ok {
+						vars[i].Name = to
+					}
+				}
+				t.walk(func(n *lt) {
+					if n.K == "ref" {
+						if to, ok := ren[strings.ToLower(n.S)]; ok {
+							n.S = to
+						}
+					}
+				})
+				res.Dist("typed:digit-leading-names")
+			}
 			var sp *hx.Rand
 			if rt.Chance(1, 3) {
 				sp = rt
